@@ -939,6 +939,21 @@ theorem table_frame (t : Table) (ht : frameOk t = true) (r r' : Row) (hr : r ∈
   have := List.all_eq_true.mp (List.all_eq_true.mp h1 e he) x hx
   simpa using this
 
+/-- an edit of layer `k` of several layer objects (each has its own store; that records share no element
+    object is `record_defaults_owned` / `edit_frames_other_layers` above) -/
+def docEdit (d : List St) (k : Nat) (r : Row) (v : Nat) (i : Inst) : List St :=
+  match d[k]? with
+  | some s => d.set k (AttrTable.set r v i s).st
+  | none => d
+
+/-- … and every other layer is left alone. -/
+theorem table_frame_other_layer (d : List St) (k j : Nat) (r : Row) (v : Nat) (i : Inst) (h : j ≠ k) :
+    (docEdit d k r v i)[j]? = d[j]? := by
+  unfold docEdit
+  split
+  · simp [Ne.symm h]
+  · rfl
+
 /-- every edit of the history is a row of the table -/
 def opsIn (t : Table) (ops : List Op) : Prop := ∀ o ∈ ops, match o with | .edit r _ _ => r ∈ t.rows | .save => True
 
